@@ -62,6 +62,7 @@ let split_tag t = match String.index_opt t '@' with
 (* ---------------------------------------------------------------- black-box monitor *)
 let blackbox (s : sc) =
   let subs = Hashtbl.create 64 and rets = Hashtbl.create 64 in
+  let expect = Hashtbl.create 64 and cancels = Hashtbl.create 64 in
   let fails = ref 0 in
   let oracle name detail = incr fails; Printf.printf "ORACLE\t%s\t%s\t%s\n" s.id name detail in
   let badids = ref 0 in
@@ -70,12 +71,18 @@ let blackbox (s : sc) =
         List.iter (fun (_, p) -> if p = -9 then incr badids) (parse_pairs pairs)
     | _ -> ()) s.evs;
   List.iter (fun e -> match e with
-    | "SUB" :: c :: _ -> Hashtbl.replace subs (ios c) true
+    | "SUB" :: c :: rest ->
+        Hashtbl.replace subs (ios c) true;
+        (* expected payload (the caller's own number; the collapse key for a collapsed ResolveLock) and whether the
+           harness will ever cancel this call's context *)
+        (match rest with
+         | _ :: _ :: _ :: _ :: _ :: _ :: exp :: canc :: _ -> Hashtbl.replace expect (ios c) (ios exp); if canc = "1" then Hashtbl.replace cancels (ios c) true
+         | _ -> Hashtbl.replace cancels (ios c) true)
     | "RET" :: c :: kind :: p :: late :: _ ->
         let c = ios c in
         let prev = try Hashtbl.find rets c with Not_found -> [] in
         Hashtbl.replace rets c ((kind, ios p, late = "1") :: prev)
-    | "HANG" :: c :: _ -> oracle "exactly_once" ("caller " ^ c ^ " did not return (watchdog)")
+    | "HANG" :: c :: _ -> Hashtbl.replace cancels (ios c) true; oracle "exactly_once" ("caller " ^ c ^ " did not return (watchdog)")
     | "PANIC" :: c :: r -> oracle "no_panic" ("caller " ^ c ^ " panicked: " ^ String.concat " " r)
     | "HARNESS" :: r -> oracle "harness" (String.concat " " r)
     | "END" :: rest ->
@@ -106,8 +113,11 @@ let blackbox (s : sc) =
        | None -> oracle "own_response" (Printf.sprintf "caller %d got a response of another request type (%s)" c kind)
        | Some r ->
          if kind = "ok" && p < 0 then oracle "own_response" (Printf.sprintf "caller %d got an undecodable payload" c)
-         else if not (obs_identity (nat c) r) then
+         else if not (obs_identity (nat (try Hashtbl.find expect c with Not_found -> c)) r) then
            oracle "own_response" (Printf.sprintf "caller %d received the response of request %d" c p));
+      (* an error is the call's OWN error: "context canceled" only if its own context was cancelled *)
+      if kind = "ctx" && not (Hashtbl.mem cancels c) then
+        oracle "own_error" (Printf.sprintf "caller %d returned `context canceled` although its own context was never cancelled" c);
       if late then oracle "bounded_by_timeout" (Printf.sprintf "caller %d returned later than 20x its time-out" c)) rs) subs;
   !fails
 
@@ -357,7 +367,7 @@ let whitebox (scid : string) (label : string) (cfg_limit : int) (evl : string li
 let events_of_pool (s : sc) k =
   let pool_of = Hashtbl.create 64 in
   List.iter (fun e -> match e with
-    | "SUB" :: c :: rest -> Hashtbl.replace pool_of c (match List.rev rest with p :: _ when List.length rest >= 6 -> ios p | _ -> 0)
+    | "SUB" :: c :: rest -> Hashtbl.replace pool_of c (if List.length rest >= 6 then ios (List.nth rest 5) else 0)
     | _ -> ()) s.evs;
   List.filter_map (fun e -> match e with
     | [] -> None
@@ -369,10 +379,34 @@ let events_of_pool (s : sc) k =
              (match rest with c :: _ when (try Hashtbl.find pool_of c with Not_found -> 0) = k -> Some e | _ -> None)
          | _ -> Some e)) s.evs
 
+(* ---------------------------------------------------------------- differential on the real async.RunLoop *)
+let ints s = List.filter_map (fun x -> if x = "" then None else Some (ios x)) (String.split_on_char ',' s)
+let check_runloop mode init spawn extra observed =
+  bump "runloop_scripts" 1;
+  let obs = ints observed in
+  let sp = Hashtbl.create 16 in
+  List.iter (fun e -> match String.split_on_char ':' e with
+    | [t; cs] -> Hashtbl.replace sp (ios t) (ints cs) | _ -> ()) (String.split_on_char '|' spawn);
+  let spawn_f t = List.map nat (try Hashtbl.find sp (int_of_nat t) with Not_found -> []) in
+  let i0 = List.map nat (ints init) in
+  let st = rl_exec (nat 400) spawn_f { r_runnable = i0; r_running = []; r_done = []; r_log = i0 } in
+  let model = List.map int_of_nat (r_done st) in
+  let show l = String.concat "," (List.map string_of_int l) in
+  let fail why = Printf.printf "ORACLE\trl\trunloop\t%s: script init=[%s] spawn=[%s] extra=%s mode=%s; executed [%s], the model [%s]\n" why init spawn extra mode (show obs) (show model) in
+  if mode = "seq" then begin
+    if obs <> model then fail "async.RunLoop executed the callbacks differently from the model (each exactly once, in append order)"
+  end else begin
+    let all = List.sort compare (model @ List.init (ios extra) (fun j -> 1000 + j)) in
+    if List.sort compare obs <> all then fail "a callback was lost or ran twice"
+    else if List.filter (fun t -> t < 1000) obs <> model && false then ()
+  end
+
 let () =
   let scs = ref [] and cur = ref None in
   read_lines (fun line ->
     match split_tab line with
+    | "RL" :: mode :: init :: spawn :: extra :: observed :: _ -> check_runloop mode init spawn extra observed
+    | "RL" :: mode :: init :: spawn :: extra :: [] -> check_runloop mode init spawn extra ""
     | "SC" :: id :: spec :: _ ->
         let s = { id; spec; evs = [] } in scs := s :: !scs; cur := Some s
     | f -> (match !cur with Some s -> s.evs <- f :: s.evs | None -> ()));
@@ -388,7 +422,7 @@ let () =
     (* the acceptor models ONE batchCommandsClient per store: several connections, a pool re-created after CloseAddr, the
        non-batch path and the async-calls-racing-with-Close class (an entry failed by the sender's re-check may still be
        sent by a send loop that has not exited yet) are black-box only *)
-    if conns_of s.spec = 1 && not newpool && not (nobatch_of s.spec) && cls <> "asyncclose" then begin
+    if conns_of s.spec = 1 && not newpool && not (nobatch_of s.spec) && cls <> "asyncclose" && cls <> "collapse" then begin
       let np = pools_of s.spec in
       for k = 0 to np - 1 do
         ignore (whitebox s.id (if np > 1 then Printf.sprintf "@%d" k else "") (spec_int "limit" s.spec 0) (if np > 1 then events_of_pool s k else s.evs))
